@@ -63,7 +63,7 @@ def write_replay(prop, case, res, minimised_from=None):
     }
     if minimised_from:
         rec['minimised_from'] = minimised_from
-    d = os.path.join(common.VERIF_DIR, 'replays')
+    d = os.environ.get('VERIF_REPLAY_DIR') or os.path.join(common.VERIF_DIR, 'replays')
     os.makedirs(d, exist_ok=True)
     path = os.path.join(d, '%s-%s.json' % (prop.ID, jdigest([v.oracle, v.cls, case])))
     with open(path, 'w') as f:
